@@ -84,6 +84,12 @@ def decide(prop, tier, seed=0, use_cache=True, out=sys.stdout):
             obligations += n_air
             discharged += max(0, n_air - len(fails_here))
             for f in fails_here:
+                if f["class"] == "misfit":
+                    # failure inside a function whose proof script lost an anchor / loop / rule: undecided, like a compile error
+                    if not any(u[0] == unit and u[1] == "script-misfit" for u in undecided_units):
+                        undecided_units.append((unit, "script-misfit", ["proof script no longer fits %s: %s" % (f["fn"], "; ".join(w["what"] for w in r.get("extract_warnings", [])[:3]))],
+                                                sorted(set(x["fn"] for x in fails_here if x["class"] == "misfit"))))
+                    continue
                 (sem_fail if f["class"] == "semantic" else aux_fail).append(dict(f, engine="verus", unit=unit))
         # vacuity guard on every run: a second generated file carries `assert(false)` at the start of every contracted
         # function and loop body; each of them must FAIL (contradictory requires / invariants would make them pass)
@@ -141,7 +147,7 @@ def decide(prop, tier, seed=0, use_cache=True, out=sys.stdout):
     rc = 0
     downgrade = []
     twin_names = [h for h, i in cfg["harnesses"].items() if prop in i.get("props", []) and i.get("level") != "complete" and i.get("enabled", True)]
-    need_twins = bool(violations and any(v["engine"] == "verus" for v in violations)) or bool(aux_fail) or any(u[1] in ("extract-error", "compile-error", "tool-error") for u in undecided_units)
+    need_twins = bool(violations and any(v["engine"] == "verus" for v in violations)) or bool(aux_fail) or any(u[1] in ("extract-error", "compile-error", "tool-error", "script-misfit") for u in undecided_units)
     twin_res = None
     if need_twins and twin_names:
         run_now = [h for h in twin_names if h not in kres["harnesses"]]
@@ -172,13 +178,14 @@ def decide(prop, tier, seed=0, use_cache=True, out=sys.stdout):
         if st == "success":
             covered |= set(cfg["harnesses"][h].get("covers", []))
     # auxiliary-only failures: excused only when the function is exercised by a clean twin
-    if aux_fail and not violations:
+    # an invariant / termination / proof-step obligation that is discharged on the unchanged tree and now fails (the code
+    # still fits the proof script syntactically) is reported: the brief's minimum bar for a violation. Bounded twins can
+    # add a counterexample but cannot excuse it (they are too small to vouch for all inputs).
+    if aux_fail:
         for a in aux_fail:
-            if twin_ok and not have_kani_cex and a.get("fn", "?").split("::")[-1] in covered:
-                downgrade.append("proof not re-established: %s; bounded twin harnesses covering %s clean" % (a["name"], a.get("fn")))
-            else:
-                if not known_match(prop, a["name"], known):
-                    violations.append(dict(a, note="auxiliary obligation (invariant/proof step) that is discharged on the unchanged tree now fails; no bounded twin harness settled it"))
+            if a["name"] not in seen and not known_match(prop, a["name"], known):
+                seen.add(a["name"])
+                violations.append(dict(a, note="obligation (invariant/termination/proof step) that is discharged on the unchanged tree now fails"))
     for f, k in findings:
         lines.append("KNOWN-FINDING: property=%s %s [%s]" % (prop, k.get("what_fails", ""), f["name"]))
     replays, spurious = {}, []
@@ -226,7 +233,7 @@ def decide(prop, tier, seed=0, use_cache=True, out=sys.stdout):
                 covered |= set(cfg["harnesses"][h].get("covers", []))
 
         def excused(u):
-            if u[1] not in ("extract-error", "compile-error", "tool-error") or not twin_ok:
+            if u[1] not in ("extract-error", "compile-error", "tool-error", "script-misfit") or not twin_ok:
                 return False
             fns = u[3] if len(u) > 3 else None
             if not fns:
